@@ -4,6 +4,10 @@
 // semantic definition of each representation. Degenerate triples (gimbal lock, proper-Euler middle angle 0 / 180 deg),
 // 0 deg and 180 deg axis-angle and all four branches of Matrix4::rotation() are part of the grids; branch witnesses are
 // counted by classifying the input exactly as the code does.
+// Extension after the coverage review: middle angles at (m/8)*2^-e from the degenerate value (every octave between the coarse grid
+// and "degenerate up to rounding"), angles 15 deg * 2^-j down to 2^-40, the quaternion's own axis()/angle()/axisAngle() on
+// quaternions made from an axis and an angle, a zero axis; bit-identity (fixed-frame vs moving-frame rotateE, int vs string API) is
+// used only to save work, never as an oracle.
 #include <asl/Matrix4.h>
 #include <asl/Quaternion.h>
 #include "c20_common.h"
@@ -16,6 +20,9 @@ int64_t Sym::div = 0; int Sym::ndiv = 0, Sym::unsupported = 0;
 
 static int C_EVAL, C_DISTINCT, C_HUBS;
 static int W_ROT[4], W_TB_REG, W_TB_PLUS, W_TB_MINUS, W_PR_REG, W_PR_ZERO, W_PR_PI, W_DEG_NOISY, W_DEG_EXACT, W_AA_ZERO, W_AA_180, W_FIXED, W_MOVING, W_QNEG, W_INTAPI;
+// extension (coverage review): near-degenerate Euler inputs by decade of rho, small angles, fixed-frame sources that are not
+// bit-identical to a moving-frame one, int API results that are not bit-identical to the string API, special quaternion branches
+static int W_NEAR[4], W_NEAR_SRC, W_SMALL_SRC, W_SMALL_TINY, W_FIXED_SAME, C_FIXED_OWN, C_API_DIFF, W_ANGLE_WRAP, W_ANGLE_WNEG1, W_ANGLE_WPOS1, W_ZERO_VEC, W_ZERO_AXIS, C_KEY_ABOVE1;
 static Reporter rep;
 static MaxTrack mx;
 
@@ -66,7 +73,12 @@ static R3 ref_axis_angle(long double ax, long double ay, long double az, long do
 }
 static R3 ref_rotvec(long double x, long double y, long double z) { return ref_axis_angle(x, y, z, sqrtl(x * x + y * y + z * z)); }
 // rotation angle of a (reference) rotation matrix: sin(theta/2) for the conditioning of acos-based angle extraction
-static long double half_angle_sin(const R3& r) { long double t = (r(0, 0) + r(1, 1) + r(2, 2) - 1) / 2; if (t > 1) t = 1; if (t < -1) t = -1; return sqrtl((1 - t) / 2); }
+// (angle from the antisymmetric part and the trace together: 1 - cos alone cancels completely for angles below 1e-9)
+static long double half_angle_sin(const R3& r) {
+	long double c = (r(0, 0) + r(1, 1) + r(2, 2) - 1) / 2, a = r(2, 1) - r(1, 2), b = r(0, 2) - r(2, 0), d = r(1, 0) - r(0, 1);
+	long double s = sqrtl(a * a + b * b + d * d) / 2;
+	return fabsl(sinl(atan2l(s, c) / 2));
+}
 
 template <class T> struct N { static const char* m4() { return sizeof(T) == 4 ? "Matrix4" : "Matrix4d"; } static const char* q() { return sizeof(T) == 4 ? "Quaternion" : "Quaterniond"; } static char tag() { return sizeof(T) == 4 ? 'f' : 'd'; } };
 template <class T> static R3 top3(const Matrix4_<T>& m) { R3 r; for (int i = 0; i < 3; i++) for (int j = 0; j < 3; j++) r(i, j) = (long double)m(i, j); return r; }
@@ -78,6 +90,77 @@ template <class T> static void report(const char* sig, const std::string& what, 
 	rep.bad(sig, fmt("%s is not the same rotation as the source %s: matrix distance %.3Lg = %.3Lg eps (allowed %.3Lg eps)", what.c_str(), src.c_str(), d, d / eps, tol / eps), kase);
 }
 
+// geometry of one Euler convention on a reference rotation: the equivalent moving-axes order (b0,b1,b2), whether it is a
+// proper-Euler order, and rho = |cos(middle)| (Tait-Bryan) resp. |sin(middle)| (proper): the size of the elements the two outer
+// angles are taken from
+struct Conv { int b0, b1, b2, k; bool proper; long double rho; };
+static Conv conv_of(const R3& R, int c) {
+	Conv v; const char* s = ORDERS[c >> 1];
+	v.b0 = ((c & 1) ? s[2] : s[0]) - 'X'; v.b1 = s[1] - 'X'; v.b2 = ((c & 1) ? s[0] : s[2]) - 'X';
+	v.proper = v.b0 == v.b2; v.k = 3 - v.b0 - v.b1;
+	v.rho = v.proper ? sqrtl(R(v.b1, v.b0) * R(v.b1, v.b0) + R(v.k, v.b0) * R(v.k, v.b0)) : sqrtl(R(v.b1, v.b2) * R(v.b1, v.b2) + R(v.b2, v.b2) * R(v.b2, v.b2));
+	return v;
+}
+
+// ---- matrix -> Euler angles of convention c; the triple is rebuilt by the reference and compared with R as a rotation
+template <class T>
+static void euler_back(const Matrix4_<T>& M, const R3& R, int c, const std::string& src, const std::string& kase, int level) {
+	const long double eps = std::numeric_limits<T>::epsilon();
+	typedef Vec3_<T> V3;
+	const char* via = level ? " (matrix obtained through rotation().matrix())" : "";
+	const char* s = ORDERS[c >> 1];
+	Conv cv = conv_of(R, c);
+	int b0 = cv.b0, b2 = cv.b2; bool proper = cv.proper; long double rho = cv.rho;
+	bool degen = rho <= 4 * eps; // mathematically degenerate up to the rounding of the source angles
+	// branch witnesses: the code decides on the key element (sin resp. cos of the middle angle) being +-1; an input is
+	// counted as degenerate when the ROTATION is (rho ~ 0), split by whether the element is exactly +-1 or a few ulps below
+	T key = proper ? M(b0, b0) : M(b0, b2);
+	bool below1 = fabs(key) < 1;
+	if (fabs(key) > 1) vf::add(C_KEY_ABOVE1);
+	if (!degen) {
+		vf::add(proper ? W_PR_REG : W_TB_REG);
+		// near-degenerate but regular inputs, by decade of rho (threshold-agnostic: the harness does not know where the code switches)
+		if (rho < 1e-2L) vf::add(W_NEAR[rho >= 1e-4L ? 0 : rho >= 1e-6L ? 1 : rho >= 1e-8L ? 2 : 3]);
+	}
+	else {
+		if (proper) vf::add(key > 0 ? W_PR_ZERO : W_PR_PI); else vf::add(key > 0 ? W_TB_PLUS : W_TB_MINUS);
+		vf::add(below1 ? W_DEG_NOISY : W_DEG_EXACT);
+		if (below1) mx.see_lazy(sizeof(T) == 4 ? "degenerate_key_deficit_in_eps.f" : "degenerate_key_deficit_in_eps.d", (1 - fabsl((long double)key)) / eps, [&] { return kase + " -> " + conv_name(c); });
+	}
+	std::string cn = conv_name(c);
+	V3 e = M.eulerAngles(cn.c_str());
+	vf::add(C_EVAL);
+	long double el[3] = { (long double)e.x, (long double)e.y, (long double)e.z };
+	long double d = dist(ref_euler(el, c), R);
+	// conditioning of the angle extraction: entries of size rho carry absolute errors of size eps
+	long double tol = TOL_BACK * eps * (degen ? 1 : std::max(1.0L, 1 / rho));
+	if (!(d <= tol))
+		// signature classes: regular input; regular input close to the degenerate one (rho < 0.01); degenerate rotation with key element
+		// exactly +-1; degenerate rotation whose key element is rounded to a few ulps below 1 ("noisy key")
+		report<T>(!degen ? (rho < 1e-2L ? "euler_near_degenerate" : level ? "euler_via_quaternion" : "euler_from_matrix") : below1 ? "euler_gimbal_noisy_key" : "euler_degenerate",
+		          fmt("%s::eulerAngles(\"%s\")%s = %s [rho = %.4Lg]", N<T>::m4(), cn.c_str(), via, deg3(el[0], el[1], el[2]).c_str(), rho), d, tol, src, kase);
+	mx.see_lazy(sizeof(T) == 4 ? (degen ? "euler_back_degenerate.f" : rho < 1e-2L ? "euler_back_near_degenerate.f" : "euler_back_regular.f") : (degen ? "euler_back_degenerate.d" : rho < 1e-2L ? "euler_back_near_degenerate.d" : "euler_back_regular.d"), d / tol * TOL_BACK, [&] { return kase + " -> " + cn; });
+	if (!degen) mx.see_lazy(sizeof(T) == 4 ? "min_rho_regular_inv.f" : "min_rho_regular_inv.d", 1 / rho, [&] { return kase + " -> " + cn; });
+	if (level == 0) {
+		// int API (moving frames): normally the very same computation as the string API; a result that is not bit-identical is
+		// not an error by itself (the statement only asks for the same rotation): it is then checked as a rotation of its own
+		if (!(c & 1)) {
+			V3 e2 = M.eulerAngles(s[0] - 'X', s[1] - 'X', s[2] - 'X'); vf::add(W_INTAPI);
+			if (!(e2.x == e.x && e2.y == e.y && e2.z == e.z)) {
+				vf::add(C_API_DIFF);
+				long double e2l[3] = { (long double)e2.x, (long double)e2.y, (long double)e2.z };
+				long double di = dist(ref_euler(e2l, c), R);
+				if (!(di <= tol)) report<T>("euler_int_api", fmt("%s::eulerAngles(%d,%d,%d) = %s", N<T>::m4(), s[0] - 'X', s[1] - 'X', s[2] - 'X', deg3(e2l[0], e2l[1], e2l[2]).c_str()), di, tol, src, kase);
+			}
+		}
+		// angles -> matrix with asl: isolated check of rotateE on these (arbitrary, non-grid) angles
+		Matrix4_<T> M2 = Matrix4_<T>::rotateE(e, cn.c_str());
+		long double d2 = dist(top3(M2), ref_euler(el, c));
+		if (!(d2 <= TOL_DIRECT * eps) || !affine_ok(M2)) report<T>("euler_to_matrix", fmt("%s::rotateE(%s, \"%s\")", N<T>::m4(), deg3(el[0], el[1], el[2]).c_str(), cn.c_str()), d2, TOL_DIRECT * eps, "Euler angles themselves", kase);
+		mx.see_lazy(sizeof(T) == 4 ? "euler_to_matrix.f" : "euler_to_matrix.d", d2 / eps, [&] { return kase + " -> " + cn; });
+	}
+}
+
 // ---- everything that can be derived from a rotation matrix M of type T whose intended rotation is R (reference)
 // level 0: M came directly from a representation; level 1: M = q.matrix() of the quaternion extracted from a level-0 M
 template <class T>
@@ -87,47 +170,7 @@ static void hub(const Matrix4_<T>& M, const R3& R, const std::string& src, const
 	vf::add(C_HUBS);
 	const char* via = level ? " (matrix obtained through rotation().matrix())" : "";
 	// --- matrix -> Euler angles, all 24 conventions; rebuilt by the reference and by asl's rotateE
-	for (int c = 0; c < 24; c++) {
-		const char* s = ORDERS[c >> 1];
-		int b0 = ((c & 1) ? s[2] : s[0]) - 'X', b1 = s[1] - 'X', b2 = ((c & 1) ? s[0] : s[2]) - 'X'; // equivalent moving-axes order
-		bool proper = b0 == b2;
-		int k = 3 - b0 - b1;
-		long double rho = proper ? sqrtl(R(b1, b0) * R(b1, b0) + R(k, b0) * R(k, b0)) : sqrtl(R(b1, b2) * R(b1, b2) + R(b2, b2) * R(b2, b2));
-		bool degen = rho <= 4 * eps; // mathematically degenerate up to the rounding of the source angles
-		// branch witnesses: the code decides on the key element (sin resp. cos of the middle angle) being +-1; an input is
-		// counted as degenerate when the ROTATION is (rho ~ 0), split by whether the element is exactly +-1 or a few ulps below
-		T key = proper ? M(b0, b0) : M(b0, b2);
-		bool below1 = fabs(key) < 1;
-		if (!degen) vf::add(proper ? W_PR_REG : W_TB_REG);
-		else {
-			if (proper) vf::add(key > 0 ? W_PR_ZERO : W_PR_PI); else vf::add(key > 0 ? W_TB_PLUS : W_TB_MINUS);
-			vf::add(below1 ? W_DEG_NOISY : W_DEG_EXACT);
-			if (below1) mx.see_lazy(sizeof(T) == 4 ? "degenerate_key_deficit_in_eps.f" : "degenerate_key_deficit_in_eps.d", (1 - fabsl((long double)key)) / eps, [&] { return kase + " -> " + conv_name(c); });
-		}
-		std::string cn = conv_name(c);
-		V3 e = M.eulerAngles(cn.c_str());
-		vf::add(C_EVAL);
-		long double el[3] = { (long double)e.x, (long double)e.y, (long double)e.z };
-		long double d = dist(ref_euler(el, c), R);
-		// conditioning of the angle extraction: entries of size rho carry absolute errors of size eps
-		long double tol = TOL_BACK * eps * (degen ? 1 : std::max(1.0L, 1 / rho));
-		if (!(d <= tol))
-			// signature classes: regular input; degenerate rotation with key element exactly +-1; degenerate rotation whose key
-			// element is rounded to a few ulps below 1 ("noisy key": the code's exact test |key| < 1 decides the branch)
-			report<T>(!degen ? (level ? "euler_via_quaternion" : "euler_from_matrix") : (fabs(proper ? M(b0, b0) : M(b0, b2)) < 1) ? "euler_gimbal_noisy_key" : "euler_degenerate",
-			          fmt("%s::eulerAngles(\"%s\")%s = %s", N<T>::m4(), cn.c_str(), via, deg3(el[0], el[1], el[2]).c_str()), d, tol, src, kase);
-		mx.see_lazy(sizeof(T) == 4 ? (degen ? "euler_back_degenerate.f" : "euler_back_regular.f") : (degen ? "euler_back_degenerate.d" : "euler_back_regular.d"), d / tol * TOL_BACK, [&] { return kase + " -> " + cn; });
-		if (!degen) mx.see_lazy(sizeof(T) == 4 ? "min_rho_regular_inv.f" : "min_rho_regular_inv.d", 1 / rho, [&] { return kase + " -> " + cn; });
-		if (level == 0) {
-			// int API agrees with the string API (moving frames)
-			if (!(c & 1)) { V3 e2 = M.eulerAngles(s[0] - 'X', s[1] - 'X', s[2] - 'X'); vf::add(W_INTAPI); if (!(e2.x == e.x && e2.y == e.y && e2.z == e.z)) rep.bad("euler_api_mismatch", fmt("eulerAngles(%d,%d,%d) differs from eulerAngles(\"%s\")", s[0] - 'X', s[1] - 'X', s[2] - 'X', cn.c_str()), kase); }
-			// angles -> matrix with asl: isolated check of rotateE on these (arbitrary, non-grid) angles
-			Matrix4_<T> M2 = Matrix4_<T>::rotateE(e, cn.c_str());
-			long double d2 = dist(top3(M2), ref_euler(el, c));
-			if (!(d2 <= TOL_DIRECT * eps) || !affine_ok(M2)) report<T>("euler_to_matrix", fmt("%s::rotateE(%s, \"%s\")", N<T>::m4(), deg3(el[0], el[1], el[2]).c_str(), cn.c_str()), d2, TOL_DIRECT * eps, "Euler angles themselves", kase);
-			mx.see_lazy(sizeof(T) == 4 ? "euler_to_matrix.f" : "euler_to_matrix.d", d2 / eps, [&] { return kase + " -> " + cn; });
-		}
-	}
+	for (int c = 0; c < 24; c++) euler_back<T>(M, R, c, src, kase, level);
 	// --- matrix -> quaternion (branch classified like the code does)
 	T tr = M(0, 0) + M(1, 1) + M(2, 2);
 	int br = tr >= 0 ? 0 : (M(1, 1) > M(0, 0) && M(1, 1) >= M(2, 2)) ? 1 : (M(2, 2) > M(0, 0)) ? 2 : 3;
@@ -160,6 +203,7 @@ static void hub(const Matrix4_<T>& M, const R3& R, const std::string& src, const
 	// --- axis-angle -> matrix and -> quaternion with asl, on the vector just obtained (isolated checks)
 	{
 		R3 Rv = ref_rotvec(v.x, v.y, v.z);
+		if (v.x == 0 && v.y == 0 && v.z == 0) vf::add(W_ZERO_VEC); // fromAxisAngle's zero-length branch (rotation vector 0 = identity)
 		Matrix4_<T> Mv = Matrix4_<T>::rotate(v);
 		long double d1 = dist(top3(Mv), Rv);
 		if (!(d1 <= TOL_DIRECT * eps) || !affine_ok(Mv)) report<T>("axisangle_to_matrix", fmt("%s::rotate(Vec3(%.9g, %.9g, %.9g))", N<T>::m4(), (double)v.x, (double)v.y, (double)v.z), d1, TOL_DIRECT * eps, "rotation vector itself", kase);
@@ -176,7 +220,7 @@ template <class T> static T grid_angle(int i, int steps) { return (T)(2 * PIL * 
 
 // "eul:<f|d>:<conv>:<steps>:<i>:<j>:<k>" — Euler triple (i,j,k)*360/steps degrees, i,j,k in [-steps/2, steps/2)
 template <class T>
-static void check_euler(int c, int steps, int i, int j, int k) {
+static void check_euler(int c, int steps, int i, int j, int k, bool force_hub = false) {
 	const long double eps = std::numeric_limits<T>::epsilon();
 	std::string kase = fmt("eul:%c:%d:%d:%d:%d:%d", N<T>::tag(), c, steps, i, j, k);
 	vf::cur(kase);
@@ -190,21 +234,85 @@ static void check_euler(int c, int steps, int i, int j, int k) {
 	Matrix4_<T> M = Matrix4_<T>::rotateE(Vec3_<T>(e[0], e[1], e[2]), cn.c_str());
 	long double d = dist(top3(M), R);
 	if (!(d <= TOL_DIRECT * eps) || !affine_ok(M)) report<T>("euler_to_matrix", fmt("%s::rotateE(%s, \"%s\")", N<T>::m4(), deg3(el[0], el[1], el[2]).c_str(), cn.c_str()), d, TOL_DIRECT * eps, "Euler angles themselves", kase);
-	if (!(c & 1)) { // int API
+	if (!(c & 1)) { // int API: the same rotation (bit-identity with the string API is not demanded)
 		const char* s = ORDERS[c >> 1];
 		Matrix4_<T> Mi = Matrix4_<T>::rotateE(Vec3_<T>(e[0], e[1], e[2]), s[0] - 'X', s[1] - 'X', s[2] - 'X');
-		if (dist(top3(Mi), top3(M)) != 0) rep.bad("euler_api_mismatch", fmt("rotateE(r,%d,%d,%d) differs from rotateE(r,\"%s\")", s[0] - 'X', s[1] - 'X', s[2] - 'X', cn.c_str()), kase);
+		long double di = dist(top3(Mi), R);
+		vf::add(C_EVAL);
+		if (dist(top3(Mi), top3(M)) != 0) vf::add(C_API_DIFF);
+		if (!(di <= TOL_DIRECT * eps) || !affine_ok(Mi)) report<T>("euler_to_matrix", fmt("%s::rotateE(%s, %d, %d, %d)", N<T>::m4(), deg3(el[0], el[1], el[2]).c_str(), s[0] - 'X', s[1] - 'X', s[2] - 'X'), di, TOL_DIRECT * eps, "Euler angles themselves", kase);
 	}
-	// a fixed-frame triple (e0,e1,e2) of "ABC*" is formed by the very same products as the moving-frame triple (e2,e1,e0) of "CBA":
-	// the matrix is bit-identical to one that is already converted to everything, so only the string form is checked here
+	// a fixed-frame triple (e0,e1,e2) of "ABC*" is today formed by the very same products as the moving-frame triple (e2,e1,e0) of
+	// "CBA". This is used only to save work: when the matrix is bit-identical to that moving-frame source (which is converted to
+	// everything in its own case) the conversions are not repeated; a matrix that differs is converted to everything here.
 	if (c & 1) {
 		int cr = -1; const char* s = ORDERS[c >> 1];
 		for (int o = 0; o < 12; o++) if (ORDERS[o][0] == s[2] && ORDERS[o][1] == s[1] && ORDERS[o][2] == s[0]) cr = o * 2;
 		Matrix4_<T> Mr = Matrix4_<T>::rotateE(Vec3_<T>(e[2], e[1], e[0]), conv_name(cr).c_str());
-		if (dist(top3(Mr), top3(M)) != 0) rep.bad("euler_fixed_vs_moving", fmt("rotateE(r, \"%s\") is not bit-identical to rotateE(r.zyx(), \"%s\")", cn.c_str(), conv_name(cr).c_str()), kase);
-		return;
+		if (dist(top3(Mr), top3(M)) == 0 && !force_hub) { vf::add(W_FIXED_SAME); return; }
+		vf::add(C_FIXED_OWN);
 	}
 	hub<T>(M, R, src, kase, 0);
+}
+
+// "eun:<f|d>:<conv>:<steps>:<i>:<k>:<base>:<sign>:<m>:<e>" — near-degenerate Euler triple: outer angles (i,k)*360/steps degrees,
+// middle angle = B +- (m/8)*2^-e rad, B = +90 / -90 deg (Tait-Bryan orders; base 0 / 1) resp. 0 / 180 deg (proper orders).
+// m in 8..15, so the offsets fill every octave with eight points: the band between "degenerate up to rounding" (rho <= 4 eps) and
+// the coarse grid (rho >= 1/122) is covered down to 2^-52 (float 2^-24), wherever the code under test switches formulas.
+// The matrix is converted back in every convention that is near-degenerate for it (rho < 1/16), also via rotation().matrix().
+template <class T>
+static void check_euler_near(int c, int steps, int i, int k, int base, int sign, int m, int e2) {
+	const long double eps = std::numeric_limits<T>::epsilon();
+	std::string kase = fmt("eun:%c:%d:%d:%d:%d:%d:%d:%d:%d", N<T>::tag(), c, steps, i, k, base, sign, m, e2);
+	vf::cur(kase);
+	bool proper = ORDERS[c >> 1][0] == ORDERS[c >> 1][2];
+	T B = proper ? (base ? (T)PIL : (T)0) : (base ? -(T)(PIL / 2) : (T)(PIL / 2));
+	T off = (T)ldexpl((long double)m / 8, -e2);
+	T e[3] = { grid_angle<T>(i, steps), sign ? (T)(B - off) : (T)(B + off), grid_angle<T>(k, steps) };
+	long double el[3] = { e[0], e[1], e[2] };
+	std::string cn = conv_name(c);
+	std::string src = fmt("rotateE((%.6Lg deg, %s%s%d/8*2^-%d rad, %.6Lg deg), \"%s\")", el[0] * 180 / PIL, proper ? (base ? "180 deg" : "0") : (base ? "-90 deg" : "90 deg"), sign ? " - " : " + ", m, e2, el[2] * 180 / PIL, cn.c_str());
+	R3 R = ref_euler(el, c);
+	vf::add(C_DISTINCT); vf::add(C_EVAL); vf::add(W_NEAR_SRC);
+	Matrix4_<T> M = Matrix4_<T>::rotateE(Vec3_<T>(e[0], e[1], e[2]), cn.c_str());
+	long double d = dist(top3(M), R);
+	if (!(d <= TOL_DIRECT * eps) || !affine_ok(M)) report<T>("euler_to_matrix", fmt("%s::%s", N<T>::m4(), src.c_str()), d, TOL_DIRECT * eps, "Euler angles themselves", kase);
+	Matrix4_<T> Mq = M.rotation().matrix();
+	vf::add(C_EVAL, 2);
+	long double dq = dist(top3(Mq), R);
+	if (!(dq <= (TOL_BACK + TOL_DIRECT) * eps)) report<T>("matrix_to_quaternion", fmt("%s::rotation().matrix()", N<T>::m4()), dq, (TOL_BACK + TOL_DIRECT) * eps, src, kase);
+	for (int c2 = 0; c2 < 24; c2++) {
+		if (!(conv_of(R, c2).rho < 1.0L / 16)) continue;
+		euler_back<T>(M, R, c2, src, kase, 0);
+		euler_back<T>(Mq, R, c2, src, kase, 1);
+	}
+}
+
+// what a quaternion says about its own axis and angle, compared with the rotation R it stands for
+template <class T>
+static void quat_axis_checks(const Quaternion_<T>& q, const R3& R, const std::string& src, const std::string& kase) {
+	const long double eps = std::numeric_limits<T>::epsilon();
+	long double sh = half_angle_sin(R);
+	long double tola = TOL_BACK * eps * (sh <= 4 * eps ? 1 : std::max(1.0L, 1 / sh));
+	Vec3_<T> v = q.axisAngle();
+	vf::add(C_EVAL);
+	long double dv = dist(ref_rotvec(v.x, v.y, v.z), R);
+	if (!(dv <= tola)) report<T>("quaternion_to_axisangle", fmt("%s.axisAngle() = (%.9g, %.9g, %.9g)", src.c_str(), (double)v.x, (double)v.y, (double)v.z), dv, tola, src, kase);
+	mx.see_lazy(sizeof(T) == 4 ? "quaternion_to_axisangle.f" : "quaternion_to_axisangle.d", dv / tola * TOL_BACK, [&] { return kase; });
+	// axis() and angle() separately: rotation by angle() about axis(); axis() is undefined for the identity (no vector part),
+	// where angle() alone must be a multiple of 360 degrees
+	T an = q.angle();
+	vf::add(C_EVAL);
+	if (q.w >= 1) vf::add(W_ANGLE_WPOS1); else if (q.w <= -1) vf::add(W_ANGLE_WNEG1); else if (q.w < 0) vf::add(W_ANGLE_WRAP);
+	if (q.x != 0 || q.y != 0 || q.z != 0) {
+		Vec3_<T> ax = q.axis();
+		long double da = dist(ref_axis_angle(ax.x, ax.y, ax.z, an), R);
+		if (!(da <= tola)) report<T>("quaternion_axis_angle", fmt("%s: axis() = (%.9g, %.9g, %.9g), angle() = %.9g", src.c_str(), (double)ax.x, (double)ax.y, (double)ax.z, (double)an), da, tola, src, kase);
+	}
+	else {
+		long double da = dist(ref_axis_angle(1, 0, 0, an), R);
+		if (!(da <= tola)) report<T>("quaternion_axis_angle", fmt("%s: angle() = %.9g for a quaternion without vector part", src.c_str(), (double)an), da, tola, src, kase);
+	}
 }
 
 // "quat:<f|d>:<w>:<x>:<y>:<z>" — integer 4-vector, normalised
@@ -221,28 +329,15 @@ static void check_quat(int w, int x, int y, int z) {
 	Matrix4_<T> M = q.matrix();
 	long double d = dist(top3(M), R);
 	if (!(d <= TOL_DIRECT * eps) || !affine_ok(M)) report<T>("quaternion_to_matrix", src + ".matrix()", d, TOL_DIRECT * eps, "quaternion itself", kase);
-	long double sh = half_angle_sin(R);
-	long double tola = TOL_BACK * eps * (sh <= 4 * eps ? 1 : std::max(1.0L, 1 / sh));
-	Vec3_<T> v = q.axisAngle();
-	long double dv = dist(ref_rotvec(v.x, v.y, v.z), R);
-	if (!(dv <= tola)) report<T>("quaternion_to_axisangle", fmt("%s.axisAngle() = (%.9g, %.9g, %.9g)", src.c_str(), (double)v.x, (double)v.y, (double)v.z), dv, tola, src, kase);
-	mx.see_lazy(sizeof(T) == 4 ? "quaternion_to_axisangle.f" : "quaternion_to_axisangle.d", dv / tola * TOL_BACK, [&] { return kase; });
-	// axis() and angle() separately: rotation by angle() about axis() (axis() is undefined for the identity)
-	if (x || y || z) {
-		Vec3_<T> ax = q.axis(); T an = q.angle();
-		long double da = dist(ref_axis_angle(ax.x, ax.y, ax.z, an), R);
-		if (!(da <= tola)) report<T>("quaternion_axis_angle", fmt("%s: axis() = (%.9g, %.9g, %.9g), angle() = %.9g", src.c_str(), (double)ax.x, (double)ax.y, (double)ax.z, (double)an), da, tola, src, kase);
-	}
+	quat_axis_checks<T>(q, R, src, kase);
 	hub<T>(M, R, src, kase, 0);
 }
 
-// "aa:<f|d>:<ax>:<ay>:<az>:<steps>:<k>" — integer axis (not normalised), angle k*360/steps degrees, k in [-steps, steps]
+// rotation by the angle ang (a value of type T) about the integer axis (ax,ay,az), not normalised
 template <class T>
-static void check_axis_angle(int ax, int ay, int az, int steps, int k) {
+static void axis_angle_case(int ax, int ay, int az, T ang, const std::string& kase) {
 	const long double eps = std::numeric_limits<T>::epsilon();
-	std::string kase = fmt("aa:%c:%d:%d:%d:%d:%d", N<T>::tag(), ax, ay, az, steps, k);
 	vf::cur(kase);
-	T ang = grid_angle<T>(k, steps);
 	R3 R = ref_axis_angle(ax, ay, az, ang);
 	std::string src = fmt("rotation by %.6Lg deg about (%d, %d, %d)", (long double)ang * 180 / PIL, ax, ay, az);
 	vf::add(C_DISTINCT); vf::add(C_EVAL, 5);
@@ -254,13 +349,15 @@ static void check_axis_angle(int ax, int ay, int az, int steps, int k) {
 	long double dq = dist(ref_quat(q.w, q.x, q.y, q.z), R);
 	long double qn = sqrtl((long double)q.w * q.w + (long double)q.x * q.x + (long double)q.y * q.y + (long double)q.z * q.z);
 	if (!(dq <= TOL_DIRECT * eps) || !(fabsl(qn - 1) <= TOL_DIRECT * eps)) report<T>("axisangle_to_quaternion", fmt("%s::fromAxisAngle(Vec3(%d, %d, %d), %.9g) (norm %.12Lg)", N<T>::q(), ax, ay, az, (double)ang, qn), dq, TOL_DIRECT * eps, src, kase);
+	// the quaternion's own axis / angle / rotation vector (the only place where a quaternion with a very small vector part is asked)
+	quat_axis_checks<T>(q, R, fmt("%s::fromAxisAngle(Vec3(%d, %d, %d), %.9g)", N<T>::q(), ax, ay, az, (double)ang), kase);
 	// unit-axis variants and the rotation-vector forms
 	long double n = sqrtl((long double)(ax * ax + ay * ay + az * az));
 	Vec3_<T> u((T)(ax / n), (T)(ay / n), (T)(az / n));
 	Quaternion_<T> qu = Quaternion_<T>::fromAxisAngleU(u, ang);
 	long double dqu = dist(ref_quat(qu.w, qu.x, qu.y, qu.z), ref_axis_angle(u.x, u.y, u.z, ang));
 	if (!(dqu <= TOL_DIRECT * eps)) report<T>("axisangle_to_quaternion", fmt("%s::fromAxisAngleU(unit(%d, %d, %d), %.9g)", N<T>::q(), ax, ay, az, (double)ang), dqu, TOL_DIRECT * eps, src, kase);
-	if (k != 0) {
+	if (ang != 0) {
 		Vec3_<T> rv((T)(ax / n * (long double)ang), (T)(ay / n * (long double)ang), (T)(az / n * (long double)ang));
 		R3 Rv = ref_rotvec(rv.x, rv.y, rv.z);
 		Matrix4_<T> Mv = Matrix4_<T>::rotate(rv);
@@ -273,9 +370,45 @@ static void check_axis_angle(int ax, int ay, int az, int steps, int k) {
 	hub<T>(M, R, src, kase, 0);
 }
 
+// "aa:<f|d>:<ax>:<ay>:<az>:<steps>:<k>" — integer axis (not normalised), angle k*360/steps degrees, k in [-steps, steps]
+template <class T>
+static void check_axis_angle(int ax, int ay, int az, int steps, int k) {
+	axis_angle_case<T>(ax, ay, az, grid_angle<T>(k, steps), fmt("aa:%c:%d:%d:%d:%d:%d", N<T>::tag(), ax, ay, az, steps, k));
+}
+// "aas:<f|d>:<ax>:<ay>:<az>:<j>:<sign>" — small angles: +-15 deg * 2^-j
+template <class T>
+static void check_small_angle(int ax, int ay, int az, int j, int sign) {
+	T ang = (T)ldexpl(PIL / 12, -j);
+	vf::add(W_SMALL_SRC);
+	if ((long double)ang * ang / 8 < std::numeric_limits<T>::epsilon() / 4) vf::add(W_SMALL_TINY); // cos(angle/2) rounds to 1: the quaternion's scalar part no longer carries the angle
+	axis_angle_case<T>(ax, ay, az, sign ? -ang : ang, fmt("aas:%c:%d:%d:%d:%d:%d", N<T>::tag(), ax, ay, az, j, sign));
+}
+// "aaz:<f|d>:<steps>:<k>" — no axis at all (zero vector) with a non-zero angle: there is nothing to rotate about, the result has to
+// be the identity rotation (nothing is demanded about the norm of the quaternion, only that it is a finite one standing for no rotation)
+template <class T>
+static void check_zero_axis(int steps, int k) {
+	const long double eps = std::numeric_limits<T>::epsilon();
+	std::string kase = fmt("aaz:%c:%d:%d", N<T>::tag(), steps, k);
+	vf::cur(kase);
+	T ang = grid_angle<T>(k, steps);
+	Vec3_<T> zero(0, 0, 0);
+	vf::add(W_ZERO_AXIS); vf::add(C_EVAL, 2);
+	Matrix4_<T> M = Matrix4_<T>::rotate(zero, ang);
+	long double d = dist(top3(M), ident());
+	if (!(d <= TOL_DIRECT * eps) || !affine_ok(M)) report<T>("axisangle_zero_axis", fmt("%s::rotate(Vec3(0, 0, 0), %.9g)", N<T>::m4(), (double)ang), d, TOL_DIRECT * eps, "no rotation (zero axis)", kase);
+	Quaternion_<T> q = Quaternion_<T>::fromAxisAngle(zero, ang);
+	if (q.w != 0) { // 180 deg * odd: cos = 0 up to rounding, the null quaternion stands for nothing
+		long double dq = dist(ref_quat(q.w, q.x, q.y, q.z), ident());
+		if (!(dq <= TOL_DIRECT * eps)) report<T>("axisangle_zero_axis", fmt("%s::fromAxisAngle(Vec3(0, 0, 0), %.9g) = (%.9g, %.9g, %.9g, %.9g)", N<T>::q(), (double)ang, (double)q.w, (double)q.x, (double)q.y, (double)q.z), dq, TOL_DIRECT * eps, "no rotation (zero axis)", kase);
+	}
+}
+
 static void run_case(const std::string& k) {
-	char t = 0; int a = 0, b = 0, c = 0, d = 0, e = 0, f = 0;
-	if (sscanf(k.c_str(), "eul:%c:%d:%d:%d:%d:%d", &t, &a, &b, &c, &d, &e) == 6) { if (t == 'f') check_euler<float>(a, b, c, d, e); else check_euler<double>(a, b, c, d, e); }
+	char t = 0; int a = 0, b = 0, c = 0, d = 0, e = 0, f = 0, g = 0, h = 0;
+	if (sscanf(k.c_str(), "eul:%c:%d:%d:%d:%d:%d", &t, &a, &b, &c, &d, &e) == 6) { if (t == 'f') check_euler<float>(a, b, c, d, e, true); else check_euler<double>(a, b, c, d, e, true); }
+	else if (sscanf(k.c_str(), "eun:%c:%d:%d:%d:%d:%d:%d:%d:%d", &t, &a, &b, &c, &d, &e, &f, &g, &h) == 9) { if (t == 'f') check_euler_near<float>(a, b, c, d, e, f, g, h); else check_euler_near<double>(a, b, c, d, e, f, g, h); }
+	else if (sscanf(k.c_str(), "aas:%c:%d:%d:%d:%d:%d", &t, &a, &b, &c, &d, &e) == 6) { if (t == 'f') check_small_angle<float>(a, b, c, d, e); else check_small_angle<double>(a, b, c, d, e); }
+	else if (sscanf(k.c_str(), "aaz:%c:%d:%d", &t, &a, &b) == 3) { if (t == 'f') check_zero_axis<float>(a, b); else check_zero_axis<double>(a, b); }
 	else if (sscanf(k.c_str(), "quat:%c:%d:%d:%d:%d", &t, &a, &b, &c, &d) == 5) { if (t == 'f') check_quat<float>(a, b, c, d); else check_quat<double>(a, b, c, d); }
 	else if (sscanf(k.c_str(), "aa:%c:%d:%d:%d:%d:%d", &t, &a, &b, &c, &d, &e) == 6) { if (t == 'f') check_axis_angle<float>(a, b, c, d, e); else check_axis_angle<double>(a, b, c, d, e); }
 	(void)f;
@@ -291,6 +424,11 @@ int main(int argc, char** argv) {
 	W_DEG_EXACT = vf::counter("w.euler_degenerate_key_element_exactly_1"); W_DEG_NOISY = vf::counter("w.euler_degenerate_key_element_below_1");
 	W_AA_ZERO = vf::counter("w.axisangle_0deg"); W_AA_180 = vf::counter("w.axisangle_180deg"); W_FIXED = vf::counter("w.euler_fixed_frame_sources"); W_MOVING = vf::counter("w.euler_moving_frame_sources");
 	W_QNEG = vf::counter("w.quaternion_negative_scalar"); W_INTAPI = vf::counter("w.euler_int_api");
+	W_NEAR[0] = vf::counter("w.euler_near_degenerate_rho_1e-4_to_1e-2"); W_NEAR[1] = vf::counter("w.euler_near_degenerate_rho_1e-6_to_1e-4"); W_NEAR[2] = vf::counter("w.euler_near_degenerate_rho_1e-8_to_1e-6"); W_NEAR[3] = vf::counter("w.euler_near_degenerate_rho_below_1e-8");
+	W_NEAR_SRC = vf::counter("w.euler_near_degenerate_sources"); W_SMALL_SRC = vf::counter("w.axisangle_small_angle_sources"); W_SMALL_TINY = vf::counter("w.axisangle_small_angle_cos_rounds_to_1");
+	W_FIXED_SAME = vf::counter("w.euler_fixed_frame_bit_identical_to_moving"); C_FIXED_OWN = vf::counter("euler_fixed_frame_sources_converted_to_everything"); C_API_DIFF = vf::counter("euler_int_api_not_bit_identical");
+	W_ANGLE_WRAP = vf::counter("w.quaternion_angle_wraps_below_minus_pi"); W_ANGLE_WNEG1 = vf::counter("w.quaternion_angle_w_le_minus1"); W_ANGLE_WPOS1 = vf::counter("w.quaternion_angle_w_ge_1");
+	W_ZERO_VEC = vf::counter("w.axisangle_zero_vector_to_matrix"); W_ZERO_AXIS = vf::counter("w.axisangle_zero_axis_nonzero_angle"); C_KEY_ABOVE1 = vf::counter("w.euler_key_element_above_1");
 	rep.c_supp = vf::counter("violations_not_listed_repeats");
 	if (vf::opt.replay) { vf::parallel(1, [&](uint64_t) { run_case(vf::opt.kase); }); return vf::finish(); }
 	bool T = vf::opt.thorough();
@@ -298,12 +436,28 @@ int main(int argc, char** argv) {
 	// (a) Euler grid: 15 deg (quick) / 7.5 deg (thorough) in all three angles x 24 conventions x {float, double}
 	int steps = T ? 48 : 24;
 	bool capped = false;
+	Sections sec;
 	vf::parallel((uint64_t)24 * steps * steps, [&](uint64_t it) {
 		if (vf::deadline_passed()) { if (!capped) { capped = true; vf::cap_hit("deadline inside the Euler grid"); } return; }
 		int c = (int)(it / (steps * steps)), i = (int)(it / steps % steps) - steps / 2, j = (int)(it % steps) - steps / 2;
-		for (int k = -steps / 2; k < steps / 2; k++) { check_euler<double>(c, steps, i, j, k); check_euler<float>(c, steps, i, j, k); }
+		// thorough: fixed-frame sources on the 15 deg sub-grid are converted to everything even when bit-identical to a moving-frame source
+		for (int k = -steps / 2; k < steps / 2; k++) { bool fh = T && (c & 1) && !(i & 1) && !(j & 1) && !(k & 1); check_euler<double>(c, steps, i, j, k, fh); check_euler<float>(c, steps, i, j, k, fh); }
 		mx.flush(); mx.m.clear();
 	}, 4);
+	sec.done("euler_grid");
+	// (a2) near-degenerate middle angles: outer angles on the 45 deg (quick) / 15 deg (thorough) grid x 24 conventions x 2 bases x 2 signs x
+	// offsets (m/8)*2^-e: every octave e = 5..27 (float 5..16) with m = 8..15, then powers of two down to 2^-52 (float 2^-24)
+	int nsteps = T ? 24 : 8, mstep = 1;
+	vf::parallel((uint64_t)24 * nsteps * nsteps, [&](uint64_t it) {
+		if (vf::deadline_passed()) { if (!capped) { capped = true; vf::cap_hit("deadline inside the near-degenerate Euler family"); } return; }
+		int c = (int)(it / (nsteps * nsteps)), i = (int)(it / nsteps % nsteps) - nsteps / 2, k = (int)(it % nsteps) - nsteps / 2;
+		for (int base = 0; base < 2; base++) for (int sign = 0; sign < 2; sign++) {
+			for (int e = 5; e <= 52; e++) for (int m = 8; m < (e <= 27 ? 16 : 9); m += mstep) check_euler_near<double>(c, nsteps, i, k, base, sign, m, e);
+			for (int e = 5; e <= 24; e++) for (int m = 8; m < (e <= 16 ? 16 : 9); m += mstep) check_euler_near<float>(c, nsteps, i, k, base, sign, m, e);
+		}
+		mx.flush(); mx.m.clear();
+	}, 4);
+	sec.done("euler_near_degenerate");
 	// (b) unit quaternions: all integer 4-vectors in {-r..r}^4 \ {0}, normalised
 	int r = T ? 5 : 3, side = 2 * r + 1;
 	vf::parallel((uint64_t)side * side * side, [&](uint64_t it) {
@@ -311,16 +465,26 @@ int main(int argc, char** argv) {
 		for (int z = -r; z <= r; z++) if (w || x || y || z) { check_quat<double>(w, x, y, z); check_quat<float>(w, x, y, z); }
 		mx.flush(); mx.m.clear();
 	}, 4);
+	sec.done("quaternions");
 	// (c) axis-angle: all integer axes in {-2..2}^3 \ {0} x angles k*15 deg (7.5 deg thorough), -360..360 deg incl. 0 and +-180
 	vf::parallel(125, [&](uint64_t it) {
 		int ax = (int)(it / 25) - 2, ay = (int)(it / 5 % 5) - 2, az = (int)(it % 5) - 2;
 		if (!ax && !ay && !az) return;
 		for (int k = -steps; k <= steps; k++) { check_axis_angle<double>(ax, ay, az, steps, k); check_axis_angle<float>(ax, ay, az, steps, k); }
+		// small angles +-15 deg * 2^-j down to where even sin(angle/2) is far below the rounding of cos
+		for (int sign = 0; sign < 2; sign++) {
+			for (int j = 1; j <= 40; j++) check_small_angle<double>(ax, ay, az, j, sign);
+			for (int j = 1; j <= 20; j++) check_small_angle<float>(ax, ay, az, j, sign);
+		}
 		mx.flush(); mx.m.clear();
 	});
+	vf::parallel(1, [&](uint64_t) { for (int k = -steps; k <= steps; k++) if (k) { check_zero_axis<double>(steps, k); check_zero_axis<float>(steps, k); } });
+	sec.done("axis_angle");
 	mx.collect(); mx.publish();
 	vf::setinfo("tolerances", fmt("\"to matrix/quaternion: %.0Lf eps; back to angles/quaternion/axis-angle: %.0Lf eps x max(1, 1/rho), rho = |cos(middle)| (Tait-Bryan), |sin(middle)| (proper Euler), |sin(angle/2)| (axis-angle); mathematically degenerate inputs: %.0Lf eps\"", TOL_DIRECT, TOL_BACK, TOL_BACK));
 	vf::sample("eul:d:0:24:1:6:-1 = rotateE((15,90,-15) deg, \"XYZ\") -> eulerAngles in all 24 conventions, rotation(), axisAngle(), and the same again on rotation().matrix()");
+	vf::sample("eun:d:0:24:2:-4:0:1:9:23 = rotateE((30 deg, 90 deg - 9/8*2^-23 rad, -60 deg), \"XYZ\") -> eulerAngles in the conventions that are near-degenerate for it (XYZ, ZYX*), directly and via rotation().matrix()");
+	vf::sample("aas:d:0:1:0:21:0 = rotation by 15*2^-21 deg about Y: matrix, quaternion, its axis()/angle()/axisAngle(), all 24 Euler conventions (the proper ones are near-degenerate)");
 	vf::sample("quat:f:0:1:1:0 = 180 deg about (1,1,0)/sqrt2 as a float quaternion -> matrix(), axisAngle(), every Euler convention");
 	vf::sample("aa:d:1:-2:2:24:12 = Matrix4d::rotate(Vec3d(1,-2,2), 180 deg), Quaterniond::fromAxisAngle, rotation vector forms");
 	return vf::finish();
